@@ -1,6 +1,6 @@
 """C28 Range canonicalisation: overflow clause and rejection gates of HttpHdrRangeSpec::parseInit (DESIGN.md 5/C28)."""
 from .. import expr as E
-from ..flow import ev_call, ev_return
+from ..flow import ev_call, ev_return, ev_assign
 
 I64MAX = (1 << 63) - 1
 
@@ -135,3 +135,43 @@ def run(ck):
                          "canonize can return on a path where `length` was not clipped to the representation after `offset` got its final value: the canonical range "
                          "may extend beyond the object (Content-Range/Content-Length of the 206 exceed the body)", czf.witness(st))
     ck.assume("canonize()/merge arithmetic operates on values already bounded by parseInit and the content length; that dependency is not proved here")
+
+    ck.rule("R4 HttpHdrRange::getCanonizedSpecs: a spec is kept (copy.push_back) only with its canonize(clen) established true (non-empty and inside the representation), "
+            "and RESPONSE(canonize false -> the spec is deleted, never kept); HttpHdrRange::canonize(newClen) sets clen from its argument before canonizing the specs, "
+            "passes the kept specs to merge() and reports validity as specs.size() > 0")
+    gcs = facts.fn("HttpHdrRange::getCanonizedSpecs")
+    canon = E.M(lambda t: E.strip(t).get("k") == "call" and E.strip(t).get("f") == "HttpHdrRangeSpec::canonize", "(*pos)->canonize(clen)")
+    push = ev_call("std::vector::push_back")
+    gfl = ck.flow(gcs)
+    ck.require_fact("R4.keep-only-canonical", gfl, push, canon, True, "copy.push_back(*pos)", why="(an empty or out-of-range spec would stay in the canonical set)")
+    for st in ck.sites(gfl, lambda ev: ev.get("e") == "call" and E.strip(ev["x"]).get("f") == "HttpHdrRangeSpec::canonize", "canonize()", 1):
+        a = E.strip(st.ev["x"]).get("a", [])
+        if len(a) == 1 and E.m_is_mem("HttpHdrRange::clen")(a[0]):
+            ck.ok("R4.keep-only-canonical", st.where(), "each spec is canonized against this range set's clen")
+        else:
+            ck.violation("R4.keep-only-canonical", "R4|getCanonizedSpecs|canonize-arg", st.where(), "specs are canonized against %s instead of clen" % [E.key(x) for x in a])
+    hc = [f for f in facts.fns("HttpHdrRange::canonize") if "int64_t" in f.sig or "long" in f.sig]
+    ck.need(len(hc) == 1, "C28: HttpHdrRange::canonize(int64_t) not found")
+    hc = hc[0]
+    hfl2 = ck.flow(hc, markers={"clen": ev_assign("HttpHdrRange::clen", E.m_is_ref(hc.params[0]["d"])), "specs": ev_call("HttpHdrRange::getCanonizedSpecs"), "merge": ev_call("HttpHdrRange::merge")})
+    ck.require_passed("R4.set-canonize-order", hfl2, ev_call("HttpHdrRange::getCanonizedSpecs"), "clen", "getCanonizedSpecs()", why="(specs would be clipped to a stale representation length)")
+    ck.require_passed("R4.set-canonize-order", hfl2, ev_call("HttpHdrRange::merge"), "specs", "merge()")
+    ck.require_passed("R4.set-canonize-order", hfl2, ev_return(), "merge", "return")
+
+    ck.rule("R5 HttpHdrRange::merge: every spec of the canonized basis is appended to specs (specs.push_back(*i) followed by ++i) unless it merged with the previous "
+            "one (mergeWith() true: the previous is deleted and popped, then the same spec is retried); the iterator advances only after the append, so no satisfiable "
+            "spec is dropped and none is duplicated")
+    mg = facts.fn("HttpHdrRange::merge")
+    adv = lambda ev: ev.get("e") == "call" and E.strip(ev["x"]).get("f", "").endswith("::operator++")
+
+    def reset(ev, env, fs):
+        if adv(ev):
+            env.pop("#appended", None)      # the next basis spec has not been appended yet
+    mfl = ck.flow(mg, markers={"appended": push}, track_markers=["appended"], on_event=reset)
+    for st in ck.sites(mfl, adv, "++i", 1):
+        if st.env.get("#appended") == 1:
+            ck.ok("R5.no-spec-dropped", st.where(), "merge advances past a basis spec only after appending it")
+        else:
+            ck.violation("R5.no-spec-dropped", "R5|merge|advance-without-append", st.where(), "merge can advance past a canonized spec without appending it to specs", mfl.witness(st))
+    ck.require_fact("R5.pop-only-after-merge", ck.flow(mg), ev_call("std::vector::pop_back"), E.M(lambda t: E.strip(t).get("k") == "call" and E.strip(t).get("f") == "HttpHdrRangeSpec::mergeWith", "mergeWith()"), True,
+                    "specs.pop_back()", why="(a kept spec would be discarded without having been merged into its successor)")
